@@ -80,7 +80,7 @@ def replay_one_named_{i}_{j}(s):
                     continue  # two-digit numeric names: thorough tier only (int() of two symbolic digits is slow)
                 names = [f"s{i}" for i in npos]
                 params = ", ".join(f"{x}: str" for x in names)
-                build = "[" + ", ".join((f"s{i}" if k != "P" else f'"p{i}"') for i, k in enumerate(sk)) + "]"
+                build = "[" + ", ".join((f"s{i}" if k != "P" else f'" p{i} "') for i, k in enumerate(sk)) + "]"
                 pres = []
                 for i, l in zip(npos, lens):
                     alpha = '"ab"' if sk[i] == "A" else '"3456789"'
